@@ -37,6 +37,12 @@ def trees():
         ('seq-ens', ['Seq', [T('A', 1), ['Ens', True, [T('B', 1), T('C', 2)]], T('D', 1)]]),
         ('ens-seq', ['Ens', False, [['Seq', [T('A', 1), T('B', 1)]], T('C', 2)]]),
         ('seq-ensP', ['Seq', [['Ens', False, [P('A', 1), T('B', 1)]], P('C', 2)]]),
+        # composites inside composites, with a stage behind them
+        ('seq-sw-ens', ['Seq', [['Sw', [['Ens', True, [T('A', 1), T('B', 1)]], T('C', 2)]], T('D', 1)]]),
+        ('seq-sw-ensP', ['Seq', [['Sw', [['Ens', False, [P('A', 1), T('B', 1)]], P('C', 1)]], P('D', 1)]]),
+        ('sw-seq-ens', ['Sw', [['Seq', [T('A', 1), P('B', 1)]], ['Ens', False, [T('C', 1), T('D', 1)]]]]),
+        ('ens-sw', ['Ens', False, [['Sw', [T('A', 1), T('B', 2)]], T('C', 1)]]),
+        ('ens-ensP', ['Ens', True, [['Ens', False, [T('A', 1), T('B', 1)]], P('C', 1)]]),
     ]
 
 
